@@ -307,6 +307,15 @@ func (o *Obligation) Text(prelude string, models bool) string {
 	return b.String()
 }
 
+func isLockKind(k string) bool {
+	for _, p := range []string{"guard", "lock", "unlock", "holds", "waitlevel"} {
+		if strings.HasPrefix(k, p) {
+			return true
+		}
+	}
+	return false
+}
+
 const axiomMarker = "\n;;AXIOMS;;\n"
 
 type solverSpec struct {
@@ -407,6 +416,19 @@ func discharge(o *Obligation, prelude, dir string, timeoutS, seed int, both bool
 	base = fmt.Sprintf("%s.%d", base, time.Now().UnixNano()%1000000)
 	ctx, cancel := context.WithCancel(context.Background())
 	defer cancel()
+	if o.goal == "false" && o.Expect != "sat" && isLockKind(o.Kind) {
+		// "this point is unreachable": decided by a short refutation attempt of the path condition;
+		// not retried (nothing but an infeasible path can discharge it)
+		r := runSolver(ctx, solvers[1], text, dir, base+".u", 3, seed)
+		o.TimeS = r.dur.Seconds()
+		if r.verdict == "unsat" {
+			o.Status, o.Solver, o.Agree = "discharged", r.solver, 1
+		} else {
+			o.Status = "failed"
+			o.Detail = "the path to this point was not refuted (" + r.solver + "=" + r.verdict + ")"
+		}
+		return
+	}
 	if !both && o.Expect != "sat" {
 		// stage 1: one fast E-matching run; most obligations end here
 		r := runSolver(ctx, solvers[1], text, dir, base+".s1", 2, seed)
@@ -510,7 +532,7 @@ func dischargeAll(obs []*Obligation, prelude, dir string, timeoutS, seed, worker
 		{
 			first := o.Detail
 			// a proof found with another seed or a larger budget is still a proof
-			for attempt := 1; attempt <= 3 && o.Status == "undischarged"; attempt++ {
+			for attempt := 1; attempt <= 2 && o.Status == "undischarged"; attempt++ {
 				discharge(o, prelude, dir, (1+attempt)*timeoutS, seed+attempt*7919, both)
 			}
 			if o.Status == "undischarged" {
